@@ -295,7 +295,7 @@ func cmdCheck(id, tier string, writeBaseline bool) int {
 	known := loadKnown()
 	isKnown := func(name string) *knownFinding {
 		for i := range known {
-			if known[i].Kind == "known" && known[i].Property == id && known[i].Obligation == name {
+			if known[i].Kind == "known" && known[i].Property == id && (known[i].Obligation == name || known[i].Obligation == sanitize(name)) {
 				return &known[i]
 			}
 		}
@@ -327,7 +327,9 @@ func cmdCheck(id, tier string, writeBaseline bool) int {
 			continue
 		}
 		if kf := isKnown(r.Name); kf != nil {
-			fmt.Printf("KNOWN-FINDING: property=%s %s\n", id, strings.TrimSpace(strings.TrimPrefix(kf.Text, "known:")))
+			what := strings.TrimSpace(strings.TrimPrefix(kf.Text, "known:"))
+			what = strings.TrimSpace(strings.TrimPrefix(what, "property="+kf.Property))
+			fmt.Printf("KNOWN-FINDING: property=%s %s\n", id, what)
 			knownHit = append(knownHit, r.Name)
 			continue
 		}
